@@ -174,12 +174,15 @@ class Known:
 # ---------------------------------------------------------------------------
 # process-global state a run could inherit from its predecessor
 
+NEEDS_LOGICS = [True]
+
 def reset_process_state(order_seed=0, overrides=None, cache_size=1000):
     from pytableaux import _verif
     if not _verif.ENABLED:
         raise RuntimeError('worker started without %s=1' % GUARD)
     _verif.reset(order_seed, overrides)
-    warm_process()
+    if NEEDS_LOGICS[0]:
+        warm_process()
     from pytableaux.lang import LexicalAbcMeta
     LexicalAbcMeta.__call__._cache.__init__(maxlen=cache_size)
 
@@ -207,6 +210,7 @@ def worker_main(argv):
     mode = job['mode']
     check_id = job['check']
     mod = load_check(check_id)
+    NEEDS_LOGICS[0] = getattr(mod, 'NEEDS_LOGICS', True)
     out = job['out']
     faulthandler.enable()
     faulthandler.dump_traceback_later(job.get('timeout', 600), exit=True)
